@@ -62,3 +62,8 @@ reg('C09', 'model_checking', 'A (adversary interleaver over hooked read points)'
     'The sandbox-as-adversary may rewrite its memory before any of RLBox\'s hooked reads of sandbox memory and when the verifier starts; every script of at most 2 (3) such events over 7 mutation kinds is executed for every copy_and_verify variant, element type and source placement (including objects ending on the last byte of the region). The verifier\'s object must lie outside every sandbox, hold only values the source held before the verifier started, survive a full overwrite of the region, and strings must be terminated within the range-checked length.',
     'Adversary acts at read granularity (hook points in /repo, guard ALLENABY_RLBOX_VERIF); bulk reads are atomic; hardware memory ordering is not modelled.',
     'DESIGN.md section 3, C09')
+
+reg('C13', 'model_checking', 'H (history explorer with replay + reference model)', 'BFS over operation histories replayed on the real objects, lock-step reference set model',
+    'All ownership histories over 3 owners x 3 functions x 32 operations (incl. destroy/re-create of the sandbox) are explored breadth-first to depth 4/5 with deduplication on model + implementation state, from seeds that put the backend table at 0, n-2, n-1 and n registrations; after every step the owners\' view, the entry points, the backend table, real guest calls through every entry point and registration probes are compared with the reference set model, on mbox, noop and (thorough) dylib.',
+    'Depth-bounded; one sandbox object per history; private tables are read through -fno-access-control; a violated state is not expanded further.',
+    'DESIGN.md section 3, C13')
